@@ -258,6 +258,9 @@ class Component( ComponentLevel7 ):
     top._dsl.all_signals       |= late_signals
     top._dsl.all_named_objects |= late_signals
 
+    # Interfaces are named objects, too
+    top._dsl.all_named_objects |= obj._collect_all_single()
+
     del NamedObject._elaborate_stack
 
   def _delete_component( top, obj ):
@@ -311,6 +314,9 @@ class Component( ComponentLevel7 ):
 
       removed_connectables = removed_signals | removed_method_ports
       top._dsl.all_named_objects -= removed_connectables
+
+      # Interfaces are named objects, too
+      top._dsl.all_named_objects -= foo._collect_all_single()
 
       removed_consts = set()
       if isinstance( foo, Placeholder ):
